@@ -615,8 +615,10 @@ def _rounddown(ev, a, sh, at):
 
 
 # ---- C17 -----------------------------------------------------------------------------------------
-def _text_arg(ev, n, sh, at):
+def _text_arg(ev, n, sh, at, blank_is_empty_text=False):
     v = ev.arg_scalar(n, sh, at)
+    if v is BLANK and blank_is_empty_text:
+        return ''
     if not isinstance(v, str):
         raise NoOpinion('non-text first argument of a text function')
     return v
@@ -667,7 +669,7 @@ def _concatenate(ev, a, sh, at):
 
 @fn('SEARCH', 2, 3)
 def _search(ev, a, sh, at):
-    f, t = _text_arg(ev, a[0], sh, at), _text_arg(ev, a[1], sh, at)
+    f, t = _text_arg(ev, a[0], sh, at, True), _text_arg(ev, a[1], sh, at, True)
     s = _int_arg(ev, a[2], sh, at) if len(a) == 3 else 1
     if s > len(t):
         raise XlError('#VALUE!')
@@ -678,7 +680,10 @@ def _search(ev, a, sh, at):
         else:
             raise XlError('#VALUE!')
     if f == '':
-        raise NoOpinion('empty needle')
+        # the empty text (a blank cell) is found where the search starts; in an empty text there is no position to start at
+        if t == '':
+            raise NoOpinion('empty needle in an empty text')
+        return s
     m = re.compile(wildcard_regex(f), re.I | re.S).search(t, s - 1)
     if not m:
         raise XlError('#VALUE!')
